@@ -313,3 +313,215 @@ Proof.
         apply IH. split; [exact H1|]. intros j Hj. apply (H2 (S j)). lia.
 Qed.
 
+Lemma index_of_None : forall x l, index_of x l = None <-> ~ In x l.
+Proof.
+  intros x l. induction l as [|y l IH]; simpl.
+  - split; [intros _ [] | reflexivity].
+  - destruct (String.eqb y x) eqn:E.
+    + apply String.eqb_eq in E. split; [discriminate | intros H; exfalso; apply H; left; exact E].
+    + apply String.eqb_neq in E. destruct (index_of x l); simpl.
+      * split; [discriminate|]. intros H. exfalso. apply H. right.
+        destruct (in_dec string_dec x l) as [Hin|Hn]; [exact Hin|]. apply IH in Hn. discriminate.
+      * split; [|reflexivity]. intros _ [H|H]; [congruence|]. apply (proj1 IH eq_refl). exact H.
+Qed.
+
+Lemma FirstIndex_In : forall x l i, FirstIndex x l i -> In x l.
+Proof. intros x l i [H _]. eapply nth_error_In. exact H. Qed.
+
+Lemma nodupb_NoDup : forall l, nodupb l = true <-> NoDup l.
+Proof.
+  induction l as [|x l IH]; simpl.
+  - split; [constructor | reflexivity].
+  - rewrite andb_true_iff, negb_true_iff, mem_not_In, IH. split.
+    + intros [H1 H2]. constructor; assumption.
+    + intros H. inversion H; subst. split; assumption.
+Qed.
+
+Lemma kw_accepted_iff : forall sg npos kw, kw_accepted sg npos kw = true <-> KwAccepted sg npos kw.
+Proof.
+  intros sg npos kw. unfold kw_accepted, KwAccepted.
+  destruct (index_of kw (map fst (fs_pos sg))) as [i|] eqn:I.
+  - apply index_of_Some in I. destruct (Nat.ltb i (fs_posonly sg)) eqn:L.
+    + apply Nat.ltb_lt in L. split.
+      * intros H. left. exists i. split; [exact I|]. left. split; assumption.
+      * intros [[j [Hj [[_ Hv]|[Hp _]]]]|[Hn _]].
+        -- exact Hv.
+        -- assert (Some j = Some i) as Hji by (rewrite <- (proj2 (index_of_Some _ _ _) Hj), <- (proj2 (index_of_Some _ _ _) I); reflexivity).
+           injection Hji as ->. lia.
+        -- exfalso. apply Hn. eapply FirstIndex_In. exact I.
+    + apply Nat.ltb_ge in L. rewrite Nat.leb_le. split.
+      * intros H. left. exists i. split; [exact I|]. right. split; assumption.
+      * intros [[j [Hj Hc]]|[Hn _]].
+        -- assert (Some j = Some i) as Hji by (rewrite <- (proj2 (index_of_Some _ _ _) Hj), <- (proj2 (index_of_Some _ _ _) I); reflexivity).
+           injection Hji as ->. destruct Hc as [[Hlt _]|[_ Hle]]; [lia | exact Hle].
+        -- exfalso. apply Hn. eapply FirstIndex_In. exact I.
+  - apply index_of_None in I. rewrite orb_true_iff, mem_In. split.
+    + intros H. right. split; assumption.
+    + intros [[j [Hj _]]|[_ H]]; [|exact H]. exfalso. apply I. eapply FirstIndex_In. exact Hj.
+Qed.
+
+Lemma pos_supplied_iff : forall ps i npos posonly kws,
+  pos_supplied i npos posonly kws ps = true <->
+  (forall j n d, nth_error ps j = Some (n, d) -> d = true \/ i + j < npos \/ (posonly <= i + j /\ In n kws)).
+Proof.
+  induction ps as [|[n0 d0] ps IH]; intros i npos posonly kws; simpl.
+  - split; [intros _ j n d H; destruct j; discriminate | reflexivity].
+  - rewrite andb_true_iff, IH, !orb_true_iff, andb_true_iff, Nat.ltb_lt, Nat.leb_le, mem_In. split.
+    + intros [H0 H1] j n d Hj. destruct j as [|j]; simpl in Hj.
+      * injection Hj as <- <-. rewrite Nat.add_0_r. tauto.
+      * specialize (H1 j n d Hj). replace (i + S j) with (S i + j) by lia. exact H1.
+    + intros H. split.
+      * specialize (H 0 n0 d0 eq_refl). rewrite Nat.add_0_r in H. tauto.
+      * intros j n d Hj. specialize (H (S j) n d Hj). replace (S i + j) with (i + S j) by lia. exact H.
+Qed.
+
+Lemma arity_ok_iff : forall sg npos kws, arity_ok sg npos kws = true <-> ArityOK sg npos kws.
+Proof.
+  intros sg npos kws. unfold arity_ok.
+  rewrite !andb_true_iff, orb_true_iff, Nat.leb_le, nodupb_NoDup, pos_supplied_iff, !forallb_forall.
+  split.
+  - intros [[[[H1 H2] H3] H4] H5]. constructor.
+    + exact H1.
+    + exact H2.
+    + intros kw Hk. apply kw_accepted_iff. apply H3. exact Hk.
+    + intros i n d Hn. apply (H4 i n d Hn).
+    + intros n d Hin. specialize (H5 (n, d) Hin). simpl in H5. rewrite orb_true_iff, mem_In in H5. exact H5.
+  - intros [H1 H2 H3 H4 H5]. repeat split.
+    + exact H1.
+    + exact H2.
+    + intros kw Hk. apply kw_accepted_iff. apply H3. exact Hk.
+    + intros j n d Hn. apply (H4 j n d Hn).
+    + intros [n d] Hin. simpl. rewrite orb_true_iff, mem_In. apply (H5 n d Hin).
+Qed.
+
+(* ---------------------------------------------------------------- the checker decides Resolves *)
+
+Lemma is_some_true : forall (A : Type) (o : option A), is_some o = true <-> exists v, o = Some v.
+Proof. intros A [v|]; simpl; split; intros H; try discriminate; eauto. destruct H; discriminate. Qed.
+
+Ltac to_fun :=
+  repeat match goal with
+  | H : LookupName _ _ _ _ _ |- _ => apply lookup_name_Some in H
+  | H : Walk _ _ _ _ |- _ => apply walk_Some in H
+  | H : LookupAttr _ _ _ _ |- _ => apply lookup_attr_Some in H
+  | H : FirstBinding _ _ _ |- _ => apply assoc_Some in H
+  end.
+
+Theorem check_lref_iff : forall p lr, check_lref p lr = true <-> Resolves p lr.
+Proof.
+  intros p [[[m s] ln] r]. unfold check_lref, diagnose_lref. rewrite Nat.eqb_eq.
+  destruct r as [x|root chain|root chain npos kws star dstar|key|key name]; simpl.
+  - (* RName *)
+    destruct (lookup_name p m s x) as [k|] eqn:L; simpl.
+    + split; [|reflexivity]. intros _. eapply R_name. apply lookup_name_Some. exact L.
+    + split; [discriminate|]. intros H. inversion H; subst. to_fun. congruence.
+  - (* RAttr *)
+    destruct (lookup_name p m s root) as [k|] eqn:L.
+    + destruct (walk (tables p) k chain) as [k'|] eqn:W; simpl.
+      * split; [|reflexivity]. intros _. eapply R_attr; [apply lookup_name_Some; exact L | apply walk_Some; exact W].
+      * split; [discriminate|]. intros H. inversion H; subst. to_fun. congruence.
+    + split; [discriminate|]. intros H. inversion H; subst. to_fun. congruence.
+  - (* RCall *)
+    destruct (lookup_name p m s root) as [k|] eqn:L.
+    + destruct (walk (tables p) k chain) as [k'|] eqn:W.
+      * pose proof (proj1 (lookup_name_Some _ _ _ _ _) L) as L'.
+        pose proof (proj1 (walk_Some _ _ _ _) W) as W'.
+        destruct k' as [|key|sg].
+        -- split; [|reflexivity]. intros _. eapply R_call_dyn; [exact L' | exact W' | intros sg; discriminate].
+        -- split; [|reflexivity]. intros _. eapply R_call_dyn; [exact L' | exact W' | intros sg; discriminate].
+        -- destruct (star || dstar || arity_ok sg npos kws) eqn:A.
+           ++ split; [|reflexivity]. intros _. eapply R_call_fun; [exact L' | exact W' |].
+              rewrite !orb_true_iff in A. destruct A as [[A|A]|A]; [left; exact A | right; left; exact A |].
+              right; right. apply arity_ok_iff. exact A.
+           ++ split; [discriminate|]. intros H. exfalso. clear L' W'.
+              rewrite !orb_false_iff in A. destruct A as [[A1 A2] A3].
+              inversion H; subst.
+              ** match goal with Hn : forall sg', _ <> EFunc sg' |- _ => apply (Hn sg) end.
+                 to_fun. congruence.
+              ** match goal with Hd : _ \/ _ \/ ArityOK ?sg0 _ _ |- _ =>
+                   assert (sg0 = sg) by (to_fun; congruence); subst sg0;
+                   destruct Hd as [Hc|[Hc|Hc]]; [congruence | congruence | apply arity_ok_iff in Hc; congruence]
+                 end.
+      * split; [discriminate|]. intros H. exfalso. inversion H; subst; to_fun; congruence.
+    + split; [discriminate|]. intros H. exfalso. inversion H; subst; to_fun; congruence.
+  - (* RImport *)
+    destruct (assoc key (tables p)) as [t|] eqn:T; simpl.
+    + split; [|reflexivity]. intros _. eapply R_import. apply assoc_Some. exact T.
+    + split; [discriminate|]. intros H. inversion H; subst. to_fun. congruence.
+  - (* RFrom *)
+    destruct (assoc key (tables p)) as [t|] eqn:T.
+    + destruct (lookup_attr (tables p) key name) as [k|] eqn:A; simpl.
+      * split; [|reflexivity]. intros _. eapply R_from. apply lookup_attr_Some. exact A.
+      * split; [discriminate|]. intros H. inversion H; subst. to_fun. congruence.
+    + split; [discriminate|]. intros H. exfalso. inversion H; subst. to_fun.
+      match goal with Ha : lookup_attr _ _ _ = Some _ |- _ => unfold lookup_attr in Ha; rewrite T in Ha; discriminate end.
+Qed.
+
+(* soundness: the statement DESIGN.md 4/C20 asks for *)
+Theorem check_sound : forall p, check_program p = true -> forall lr, In lr (refs p) -> Resolves p lr.
+Proof.
+  intros p H lr Hin. unfold check_program in H. rewrite forallb_forall in H.
+  apply check_lref_iff. apply H. exact Hin.
+Qed.
+
+Theorem check_complete : forall p, (forall lr, In lr (refs p) -> Resolves p lr) -> check_program p = true.
+Proof.
+  intros p H. unfold check_program. apply forallb_forall. intros lr Hin. apply check_lref_iff. apply H. exact Hin.
+Qed.
+
+(* with the excused open findings: every reference resolves or is one of the named (module, scope, diagnosis) *)
+Theorem check_sound_w : forall ws p, check_program_w ws p = true ->
+  forall lr, In lr (refs p) -> Resolves p lr \/ Waived ws p lr.
+Proof.
+  intros ws p H lr Hin. unfold check_program_w in H. rewrite forallb_forall in H.
+  specialize (H lr Hin). unfold check_lref_w in H.
+  destruct (check_lref p lr) eqn:C.
+  - left. apply check_lref_iff. exact C.
+  - right. simpl in H. apply existsb_exists in H. destruct H as [[[wm wsn] wd] [Hw Hm]].
+    unfold waiver_matches in Hm. destruct lr as [[[m s] ln] r].
+    rewrite !andb_true_iff, !String.eqb_eq, Nat.eqb_eq in Hm. destruct Hm as [[H1 H2] H3].
+    exists wm, wsn, wd. simpl. repeat split; try assumption.
+    intros Hz. unfold check_lref in C. rewrite <- H3, Hz in C. discriminate.
+Qed.
+
+Theorem check_w_nil : forall p, check_program_w [] p = check_program p.
+Proof.
+  intros p. unfold check_program_w, check_program. induction (refs p) as [|lr l IH]; simpl; [reflexivity|].
+  rewrite IH. unfold check_lref_w. simpl. rewrite orb_false_r. reflexivity.
+Qed.
+
+(* the replay is exact: a reference is reported iff it stands in the program and does not resolve *)
+Theorem failing_refs_spec : forall p lr, In lr (failing_refs p) <-> In lr (refs p) /\ ~ Resolves p lr.
+Proof.
+  intros p lr. unfold failing_refs. rewrite filter_In, negb_true_iff. split.
+  - intros [H1 H2]. split; [exact H1|]. intros R. apply check_lref_iff in R. congruence.
+  - intros [H1 H2]. split; [exact H1|]. destruct (check_lref p lr) eqn:C; [|reflexivity].
+    exfalso. apply H2. apply check_lref_iff. exact C.
+Qed.
+
+Theorem failing_refs_nil : forall p, failing_refs p = [] <-> check_program p = true.
+Proof.
+  intros p. unfold failing_refs, check_program. induction (refs p) as [|lr l IH]; simpl.
+  - split; reflexivity.
+  - destruct (check_lref p lr); simpl.
+    + exact IH.
+    + split; discriminate.
+Qed.
+
+Lemma filter_enumerate_nil : forall (A : Type) (f : A -> bool) (l : list A) i,
+  filter (fun ilr => negb (f (snd ilr))) (enumerate_from i l) = [] <-> forallb f l = true.
+Proof.
+  intros A f l. induction l as [|x l IH]; intros i; simpl.
+  - split; reflexivity.
+  - destruct (f x); simpl.
+    + apply IH.
+    + split; discriminate.
+Qed.
+
+(* what the harness reads back: an empty list of failing positions iff the program checks *)
+Theorem failing_idx_nil : forall p, failing_idx p = [] <-> check_program p = true.
+Proof.
+  intros p. unfold failing_idx, check_program.
+  rewrite <- (filter_enumerate_nil _ (check_lref p) (refs p) 0).
+  destruct (filter _ _); simpl; split; intros H; try reflexivity; discriminate.
+Qed.
